@@ -93,6 +93,26 @@ ShapeHasBadDoc(sh) ==
 SubtreeHasBadDoc(prog, segs) ==
   \E i \in 1..Len(prog.regs) : IsPrefix(segs, prog.regs[i].segs) /\ ShapeHasBadDoc(ShapeById(prog.shapes, prog.regs[i].iface))
 
+(* ---- named deviation: zbus_xml's reader gives up on large documents ---- *)
+(* zbus_xml::Node::from_reader limits quick-xml's look-ahead buffer to 4096 XML events; while it     *)
+(* collects the <interface> elements of a node, all following <node> children are buffered.  An       *)
+(* element contributes at most three events (start, text, end), so the limit can only be hit when    *)
+(* the child nodes of the document hold more than 4096 / 3 elements.                                  *)
+RECURSIVE SumLens(_, _)          \* sum over a sequence of records of (1 + Len(field))
+SumLens(s, useAnnots) ==
+  IF s = <<>> THEN 0
+  ELSE 1 + (IF useAnnots THEN Len(Head(s).annots) ELSE Len(Head(s).args)) + SumLens(Tail(s), useAnnots)
+RECURSIVE IfaceElemsSum(_)
+IfaceElemsSum(is) ==
+  IF is = <<>> THEN 0
+  ELSE 1 + SumLens(Head(is).methods, FALSE) + SumLens(Head(is).signals, FALSE) + SumLens(Head(is).props, TRUE)
+       + IfaceElemsSum(Tail(is))
+RECURSIVE Elems(_), ChildElemsSum(_)
+Elems(doc) == IfaceElemsSum(doc.ifaces) + ChildElemsSum(doc.nodes)
+ChildElemsSum(cs) == IF cs = <<>> THEN 0 ELSE 1 + Elems(Head(cs).node) + ChildElemsSum(Tail(cs))
+ChildNodeElems(doc) == Elems([ifaces |-> <<>>, nodes |-> doc.nodes])
+ReadbackLimitCanApply(doc) == ChildNodeElems(doc) * 3 > 4096
+
 (* expected doc lines of the members of an interface: "<Member>" -> lines (trimmed, as written in the source) *)
 ExpDocs(sh) ==
   [n \in {sh.methods[i].name : i \in 1..Len(sh.methods)} \cup {sh.props[i].name : i \in 1..Len(sh.props)}
